@@ -304,8 +304,78 @@ func (e *Exec) strModel(fn *ssa.Function, name string, a []Value) Value {
 		}
 		return e.strConcat(out, e.strSub(sv, start, len(s)))
 	}
+	// no symbolic model: when the arguments carry only a few symbolic bytes, enumerate their feasible
+	// values (one path per value, decided bit by bit) and call the native function on concrete strings
+	if cs, ok := e.concretizeStrArgs(a, 3); ok {
+		if f := intrinsics[name]; f != nil {
+			return f(e, fn, cs, nil)
+		}
+	}
 	e.unsupported(fmt.Sprintf("%s on symbolic string (no model)", name))
 	return nil
+}
+
+// concretizeStr forks the path over the feasible values of the symbolic bytes of s (a binary
+// decision per bit, so every leaf path has a single value) and returns the concrete string.
+func (e *Exec) concretizeStr(s StrV) StrV {
+	if s.opq != nil {
+		opaqueInspect()
+	}
+	if s.sym == nil {
+		return s
+	}
+	out := make([]byte, len(s.sym))
+	for i, b := range s.sym {
+		if b.Const {
+			out[i] = byte(b.U)
+			continue
+		}
+		var v byte
+		for bit := 7; bit >= 0; bit-- {
+			if e.Branch(e.tt.Eq(e.tt.Extract(b, bit, bit), e.tt.BVConst(1, 1))) {
+				v |= 1 << uint(bit)
+			}
+		}
+		out[i] = v
+	}
+	return StrV{s: string(out)}
+}
+
+func symByteCount(v Value) int {
+	s, ok := v.(StrV)
+	if !ok || s.sym == nil {
+		return 0
+	}
+	n := 0
+	for _, b := range s.sym {
+		if !b.Const {
+			n++
+		}
+	}
+	return n
+}
+
+// concretizeStrArgs concretizes every string argument when together they hold at most max symbolic bytes.
+func (e *Exec) concretizeStrArgs(a []Value, max int) ([]Value, bool) {
+	total := 0
+	for _, v := range a {
+		if s, ok := v.(StrV); ok && s.opq != nil {
+			return nil, false
+		}
+		total += symByteCount(v)
+	}
+	if total == 0 || total > max {
+		return nil, false
+	}
+	out := make([]Value, len(a))
+	for i, v := range a {
+		if s, ok := v.(StrV); ok {
+			out[i] = e.concretizeStr(s)
+		} else {
+			out[i] = v
+		}
+	}
+	return out, true
 }
 
 // formatFloatSym: strconv.FormatFloat(f,'f',-1,64) of a symbolic float is opaque; two renderings are
